@@ -5,6 +5,8 @@ truth: children come from vars(model), order and offsets from iterating the stor
 """
 from __future__ import annotations
 
+import decimal
+
 import io
 from typing import Any, Iterator, Optional
 
@@ -283,6 +285,9 @@ def digest(m: Any) -> Any:
         v = getattr(m, 'value', None) if hasattr(m, 'value') else m.raw_text
         if isinstance(m, InlineComment):
             v = (v or '').rstrip(' \t')
+        if isinstance(v, decimal.Decimal) and v.is_finite() and v.as_tuple().exponent > 0:
+            # a positive exponent has no spelling in plain notation: the same number written out is the same value (1E+2 and 100)
+            v = decimal.Decimal(format(v, 'f'))
         return (type(m).__name__, repr(v))
     if isinstance(m, Repeated):
         return ['R', *[digest(i) for i in m.items if not isinstance(i, BlockComment)]]
